@@ -9,3 +9,7 @@ func TestC01_Spec(t *testing.T) {
 func TestC01_Mutated(t *testing.T) {
 	checkRapid(t, "C01", "TestC01_Mutated", ruleC01Mut, drawC01Mut)
 }
+
+func TestC01_SharedParsed(t *testing.T) {
+	checkRapid(t, "C01", "TestC01_SharedParsed", ruleC01Shared, drawC01Shared)
+}
